@@ -1446,3 +1446,27 @@ B('k18_glom_t_spec_values', ['C18'], 'R18.a', (META, "        return {'resources
 B('k18_glom_path_through_mapping', ['C18'], 'R18.a', (META, "        return {'abs_start_time': str(start_time),", "        return {'db': repr(glom(_meta_application, 'resources.db_secret', default=None)), 'abs_start_time': str(start_time),"))
 B('k18_glom_constant_spec_values', ['C18'], 'R18.a', (META, "DEFAULT_PAGE_TITLE = 'Clastic'\n", "DEFAULT_PAGE_TITLE = 'Clastic'\n_RES_SPEC = 'resources'\n"),
   (META, "        return {'middlewares': get_mw_infos(_application)}", "        return {'middlewares': get_mw_infos(_application), 'res': [repr(v) for v in glom(_application, _RES_SPEC).values()]}"))
+
+# ---- R18.b: wherever a view holds one middleware of the host, only the harmless attributes are read; no view reads key material ----
+B('k18_mw_key_read_in_route_arg_info', ['C18'], 'R18.b', (META, "                if arg in mw.provides:\n                    source = 'middleware'\n",
+                                                                "                if arg in mw.provides:\n                    source = 'middleware'\n                    arg_src['mw_key'] = mw.secret_key\n"))
+B('k18_mw_vars_in_route_infos', ['C18'], 'R18.b', (META, "        r_info['args'] = get_route_arg_info(r)\n",
+                                                         "        r_info['args'] = get_route_arg_info(r)\n        r_info['mws'] = [sorted(vars(mw)) and repr(vars(mw)) for mw in r.middlewares]\n"))
+B('k18_mw_key_read_by_index', ['C18'], 'R18.b', (META, "        return {'middlewares': get_mw_infos(_application)}",
+                                                       "        return {'middlewares': get_mw_infos(_application), 'first_key': _application.middlewares[0].secret_key if _application.middlewares else None}"))
+B('k18_mw_key_read_getattr', ['C18'], 'R18.b', (META, "        cur['repr'] = repr(mw)\n        ret.append(cur)\n    return ret\n",
+                                                      "        cur['repr'] = repr(mw)\n        ret.append(cur)\n    ret.append({'key': getattr(_application.middlewares[-1], 'secret_key', None)})\n    return ret\n"))
+T('k18_mw_provides_in_route_infos', ['C18'], (META, "        r_info['args'] = get_route_arg_info(r)\n",
+                                                    "        r_info['args'] = get_route_arg_info(r)\n        r_info['mw_provides'] = [list(mw.provides) for mw in r.middlewares]\n"))
+T('k18_mw_names_in_context', ['C18'], (META, "        return {'middlewares': get_mw_infos(_application)}",
+                                             "        return {'middlewares': get_mw_infos(_application), 'mw_names': [mw.__class__.__name__ for mw in _application.middlewares]}"))
+
+# ---- R18.a: no page context holds a *list* of host objects either ---------------------------------------------------------
+B('k18_ctx_holds_route_list', ['C18'], 'R18.a', (META, "        return {'routes': get_route_infos(_application),", "        return {'routes': get_route_infos(_application), 'raw_routes': _application.routes,"))
+B('k18_ctx_holds_mw_list_copy', ['C18'], 'R18.a', (META, "        return {'middlewares': get_mw_infos(_application)}",
+                                                         "        mws = list(_application.middlewares)\n        return {'middlewares': get_mw_infos(_application), 'raw': mws}"))
+B('k18_route_info_holds_mw_list', ['C18'], 'R18.a', (META, "        r_info['args'] = get_route_arg_info(r)\n", "        r_info['args'] = get_route_arg_info(r)\n        r_info['mws'] = r.middlewares\n"))
+B('k18_ctx_holds_sorted_routes_local', ['C18'], 'R18.a', (META, GRIS, GRIS.replace("    ret = []\n", "    ret = []\n    routes = app.routes\n").replace(
+    "    return ret\n", "    ret.append({'all': tuple(routes)})\n    return ret\n")))
+T('k18_ctx_holds_route_count', ['C18'], (META, "        return {'routes': get_route_infos(_application),", "        return {'routes': get_route_infos(_application), 'route_count': len(_application.routes),"))
+T('k18_route_info_holds_mw_reprs', ['C18'], (META, "        r_info['args'] = get_route_arg_info(r)\n", "        r_info['args'] = get_route_arg_info(r)\n        r_info['mws'] = [repr(mw) for mw in r.middlewares]\n"))
